@@ -830,7 +830,7 @@ class Atoms:
 
         charges = []
         if block.has_key('_atom_site_charge'):
-            charges = block['_atom_site_charge']
+            charges = [tofloat(c) for c in block['_atom_site_charge']]
 
         all_handled_atom_tags = OrderedSet(cart_coord_tags + fract_coord_tags +
                                     ["_atom_site_type_symbol", "_atom_site_charge", "_atom_site_label"])
